@@ -566,9 +566,11 @@ class Ops:
             dp = sc[0].get("diff_poly")
             if dp is not None and len(dp.terms) == 1:
                 (mono, coef), = dp.terms.items()
-                if len(mono) == 1 and mono[0][1] == 1 and coef in (1, -1) and str(mono[0][0]).startswith(("len[", "len*[")):
+                if len(mono) == 1 and mono[0][1] == 1 and coef in (1, -1) and str(mono[0][0]).startswith(("len[", "len*[", "len~[")):
                     sym = str(mono[0][0])
                     atoms_txt = sym[sym.index("[") + 1:-1]
+                    if sym.startswith("len~["):
+                        atoms_txt = "~" + atoms_txt  # a FILTERED selection of the collection: it may be empty although the collection is not
                     if coef == 1 and op in ("Eq", "NotEq", "Gt", "LtE"):
                         nonempty = op in ("NotEq", "Gt")
                         return ("nonempty?" + atoms_txt, (not nonempty) ^ neg)
